@@ -145,20 +145,25 @@ namespace CDNS {
          */
         void write(const char* p, std::size_t size) override {
             m_out.write(p, size);
+            if (m_out.fail())
+                throw CborOutputException("Couldn't write to the output file!");
         }
 
         /**
          * @brief Rotate the output file (currently opened output is closed)
          * @param value Name of the new output file
-         * @throw CborOutputException if opening of the output file fails
+         * @throw CborOutputException if opening of the output file fails or if some data
+         * couldn't be written to the closed output file (the new output file is open in that case)
          */
         void rotate_output(const boost::any& value) override {
             if (value.type() != typeid(std::string))
                 return;
 
-            close();
+            bool closed = close_file();
             m_value = boost::any_cast<std::string>(value);
             open();
+            if (!closed)
+                throw CborOutputException("Couldn't write all data to the closed output file!");
         }
 
         protected:
@@ -176,17 +181,33 @@ namespace CDNS {
          * @brief Close the opened output file with given name
          */
         void close() override {
+            close_file();
+        }
+
+        /**
+         * @brief Close the opened output file and give it its final name
+         * @return `false` if some data couldn't be written to the file (the file then keeps
+         * its ".part" name), `true` otherwise
+         */
+        bool close_file() {
+            bool ok = true;
             try {
                 if (m_out.is_open()) {
                     m_out.flush();
+                    ok = !m_out.fail();
                     m_out.close();
-                    if (std::rename((m_value + m_extension + ".part").c_str(), (m_value + m_extension).c_str()))
+                    ok = ok && !m_out.fail();
+                    if (!ok)
+                        std::cerr << "Couldn't write all data to the output file!" << std::endl;
+                    else if (std::rename((m_value + m_extension + ".part").c_str(), (m_value + m_extension).c_str()))
                         std::cerr << "Couldn't rename the output file!" << std::endl;
                 }
             }
             catch (std::exception& e) {
                 std::cerr << e.what() << std::endl;
+                ok = false;
             }
+            return ok;
         }
 
         std::string m_value;
